@@ -12,6 +12,7 @@ CONSTANTS
   Deviations = {}
   Deterministic = FALSE
   Preamble <- NoPreamble
+  Traffic = FALSE
   Emit = FALSE
 VIEW MCView
 PROPERTY P_C08_SoftStopCompletes
